@@ -4193,9 +4193,15 @@ func (c *Checker) checkMacroBoundaryNode(node *ast.MacroBoundaryNode) ast.Expres
 		return node
 	}
 
+	// the expansion of a macro called inside an unhygienic splice is hygienic again
+	prevUnhygienic := c.isUnhygienic()
+	c.setUnhygienic(false)
+
 	c.pushMacroBoundaryLocalEnv()
 	resultType, _ := c.checkStatements(node.Body, false)
 	c.popLocalEnv()
+
+	c.setUnhygienic(prevUnhygienic)
 
 	node.SetType(resultType)
 	return node
